@@ -9,6 +9,7 @@ import (
 	"sort"
 	"strings"
 	"testing"
+	"time"
 )
 
 // Job is read from the file named by VERIF_JOB; results are written as JSON lines to VERIF_OUT.
@@ -40,7 +41,11 @@ func TestHarness(t *testing.T) {
 	defer outF.Close()
 	w := bufio.NewWriter(outF)
 	defer w.Flush()
+	hung := false
 	emit := func(v any) {
+		if r, ok := v.(SysRecord); ok && r.Hang {
+			hung = true
+		}
 		b, err := json.Marshal(v)
 		if err != nil {
 			t.Fatal(err)
@@ -140,7 +145,7 @@ func TestHarness(t *testing.T) {
 			}
 			return false
 		}
-		for i := 0; i < job.N; i++ {
+		for i := 0; i < job.N && !hung; i++ {
 			seed := job.Seed*7919 + int64(i)
 			cfg := i % 4
 			stream := (i/4)%3 != 0
@@ -148,25 +153,25 @@ func TestHarness(t *testing.T) {
 			if has("conc") {
 				switch cfg {
 				case 0:
-					emit(FamConc(jsonRawCodec(), seed))
+					emit(guard("conc", "jsonRawCodec", seed, func() SysRecord { return FamConc(jsonRawCodec(), seed) }))
 				case 1:
-					emit(FamConc(jsonBytesCodec(), seed))
+					emit(guard("conc", "jsonBytesCodec", seed, func() SysRecord { return FamConc(jsonBytesCodec(), seed) }))
 				case 2:
-					emit(FamConc(cborRawCodec(), seed))
+					emit(guard("conc", "cborRawCodec", seed, func() SysRecord { return FamConc(cborRawCodec(), seed) }))
 				default:
-					emit(FamConc(cborBytesCodec(), seed))
+					emit(guard("conc", "cborBytesCodec", seed, func() SysRecord { return FamConc(cborBytesCodec(), seed) }))
 				}
 			}
 			if has("hub") {
 				switch cfg {
 				case 0:
-					emit(FamHub(jsonRawCodec(), seed))
+					emit(guard("hub", "jsonRawCodec", seed, func() SysRecord { return FamHub(jsonRawCodec(), seed) }))
 				case 1:
-					emit(FamHub(jsonBytesCodec(), seed))
+					emit(guard("hub", "jsonBytesCodec", seed, func() SysRecord { return FamHub(jsonBytesCodec(), seed) }))
 				case 2:
-					emit(FamHub(cborRawCodec(), seed))
+					emit(guard("hub", "cborRawCodec", seed, func() SysRecord { return FamHub(cborRawCodec(), seed) }))
 				default:
-					emit(FamHub(cborBytesCodec(), seed))
+					emit(guard("hub", "cborBytesCodec", seed, func() SysRecord { return FamHub(cborBytesCodec(), seed) }))
 				}
 			}
 			if has("wire") {
@@ -214,7 +219,7 @@ func TestHarness(t *testing.T) {
 		}
 	case "config":
 		// C08: one seeded workload under every configuration
-		for i := 0; i < job.N; i++ {
+		for i := 0; i < job.N && !hung; i++ {
 			seed := job.Seed*104729 + int64(i)
 			for _, st := range []struct {
 				stream bool
@@ -233,7 +238,25 @@ func TestHarness(t *testing.T) {
 	}
 }
 
+// guard runs one workload with a deadline: panrpc-internal deadlocks (goroutines stuck on a mutex) do
+// not honour contexts, so the workload itself may never come back
+func guard(family, config string, seed int64, f func() SysRecord) SysRecord {
+	done := make(chan SysRecord, 1)
+	go func() { done <- f() }()
+	select {
+	case r := <-done:
+		return r
+	case <-time.After(45 * time.Second):
+		return SysRecord{Family: family, Config: config, Seed: seed, Hang: true,
+			Notes: []string{"the workload did not finish within 45 s: calls are stuck inside panrpc (deadlock)"}}
+	}
+}
+
 func runFam[T any](f string, c Codec[T], stream bool, chunk int, seed int64, n int) SysRecord {
+	return guard(f, cfgName(c.Name, stream, chunk), seed, func() SysRecord { return runFam0(f, c, stream, chunk, seed, n) })
+}
+
+func runFam0[T any](f string, c Codec[T], stream bool, chunk int, seed int64, n int) SysRecord {
 	switch f {
 	case "values":
 		return FamValues(c, stream, chunk, seed, n)
